@@ -43,6 +43,10 @@ func (d *Document) IntValueAsInt32(ref int) (out int32) {
 
 func (d *Document) IntValueValidInt32(ref int) bool {
 	in := d.Input.ByteSlice(d.IntValues[ref].Raw)
+	if d.IntValues[ref].Negative && string(in) == "2147483648" {
+		// Raw does not include the sign: -2147483648 is the smallest int32
+		return true
+	}
 	return unsafebytes.BytesIsValidInt32(in)
 }
 
